@@ -3,6 +3,7 @@
 // uses POSIX semaphores and <thread> through the name real_thread to avoid the macros.
 #include "simsched.h"
 #include <semaphore.h>
+#include <pthread.h>
 #include <unordered_map>
 #include <cstring>
 #include <cstdio>
@@ -34,6 +35,7 @@ struct ThreadRec {
   uint32_t vc[MAXT];
   long prio = 0;
   int open_buf = -1;   // monitor: buffer this (worker) thread is between access and next sched point on
+  const char *stack_lo = nullptr, *stack_hi = nullptr;   // 'tsi': bounds of this thread's own stack
 };
 
 struct BufMon {
@@ -72,6 +74,28 @@ struct Session {
 };
 
 static Session S;
+
+static void note_stack(ThreadRec *t) {
+  pthread_attr_t a;
+  if (pthread_getattr_np(pthread_self(), &a) == 0) {
+    void *lo = nullptr; size_t sz = 0;
+    pthread_attr_getstack(&a, &lo, &sz);
+    pthread_attr_destroy(&a);
+    t->stack_lo = (const char *)lo; t->stack_hi = (const char *)lo + sz;
+  }
+}
+
+// ---- 'tsi' builds: the repository is compiled with -fsanitize=thread but linked against the callbacks below instead of
+// libtsan.  Every instrumented load/store of repository code arrives here BEFORE it happens (DESIGN.md 10.16).
+struct MemShadow { uint8_t first = 255, wtid = 255, rtid = 255, flags = 0; uint32_t wclk = 0, rclk = 0; };
+static std::unordered_map<uintptr_t, MemShadow> g_shadow;
+static thread_local bool g_in_mem = false;
+static thread_local bool tl_sim = false;   // this real thread is a simulated thread that has been started and has not exited yet
+// true while simulator code runs (exactly one thread runs at a time, so one flag suffices): instrumented inline code that
+// the simulator itself executes (std::vector, std::string ... share their instantiations with the repository's objects)
+// must not be taken for repository memory traffic, let alone re-enter the scheduler
+static bool g_busy = false;
+struct Busy { bool prev; Busy() : prev(g_busy) { g_busy = true; } ~Busy() { g_busy = prev; } };
 static FailHandler g_fail = nullptr;
 static bool (*g_is_ready)(const void *) = nullptr;
 static unsigned long g_sizeof_iobuffer = 0;
@@ -80,7 +104,7 @@ const char *ev_name(int k) {
   static const char *n[] = {"?", "lock_req", "lock_acq", "unlock", "cv_wait", "cv_wake", "notify_one", "notify_all",
                             "thread_create", "thread_start", "thread_exit", "join_req", "join_done",
                             "look", "relook", "load_begin", "load_end", "export_begin", "export_end", "group",
-                            "spy_enter", "spy_exit", "spurious", "io_read", "io_write", "io_seek", "trylock", "timeout", "atomic"};
+                            "spy_enter", "spy_exit", "spurious", "io_read", "io_write", "io_seek", "trylock", "timeout", "atomic", "mem"};
   return (k > 0 && k < EV_KIND_MAX) ? n[k] : "?";
 }
 const char *strategy_name(int s) {
@@ -135,7 +159,7 @@ static void record(int kind, int obj, long a) {
   ThreadRec *me = S.cur;
   S.res.steps++;
   Event e{(uint32_t)S.res.steps, (uint8_t)me->id, (uint8_t)kind, obj, a};
-  if (S.cfg.keep_events) S.res.events.push_back(e);
+  if (S.cfg.keep_events && kind != EV_MEM) S.res.events.push_back(e);
   uint64_t h = S.res.trace_hash;
   h = fnv1a_u64(h, ((uint64_t)me->id << 56) ^ ((uint64_t)kind << 48) ^ ((uint64_t)(uint32_t)obj << 16));
   h = fnv1a_u64(h, (uint64_t)a);
@@ -352,6 +376,7 @@ static void switch_to(ThreadRec *next) {
   S.cur = next;
   sem_post(&next->sem);
   sem_wait_retry(&me->sem);
+  g_busy = true;   // resumed in the middle of a simulator entry point
 }
 
 static void check_budget() {
@@ -464,6 +489,7 @@ static void mon_io_end(int b, bool load, const char *what) {
 // ---------------------------------------------------------------- public event entry points
 
 void hook_event(int kind, const void *p1, const void *p2, unsigned long n) {
+  Busy busy_guard;
   if (!S.active) return;
   ThreadRec *me = S.cur;
   switch (kind) {
@@ -529,6 +555,7 @@ void hook_event(int kind, const void *p1, const void *p2, unsigned long n) {
 }
 
 void spy_event(bool enter, int stream) {
+  Busy busy_guard;
   if (!S.active) return;
   if (enter) {
     record(EV_SPY_ENTER, stream, 0);
@@ -542,13 +569,72 @@ void spy_event(bool enter, int stream) {
 }
 
 void io_event(int kind, int file, long n) {
+  Busy busy_guard;
   if (!S.active) return;
   record(kind, file, n);
+}
+
+// ---------------------------------------------------------------- instrumented memory accesses ('tsi' builds)
+
+void mem_access(const void *p, unsigned size, bool write) {
+  // a real thread that has not reached its trampoline yet, or has already passed the baton on for good (std::thread's own
+  // set-up / tear-down runs instrumented inline code concurrently with the simulation), is not part of it
+  if (!tl_sim || !S.active || g_in_mem || g_busy || !S.cur) return;
+  ThreadRec *me = S.cur;
+  if ((const char *)p >= me->stack_lo && (const char *)p < me->stack_hi) return;   // the running thread's own stack
+  g_in_mem = true;
+  Busy busy_guard;
+  S.res.mem_accesses++;
+  bool hot = false;
+  bool watched = S.buf_base && g_sizeof_iobuffer && (const char *)p >= S.buf_base && (const char *)p < S.buf_base + S.nbuf * g_sizeof_iobuffer;
+  uintptr_t a0 = (uintptr_t)p >> 3, a1 = ((uintptr_t)p + (size ? size - 1 : 0)) >> 3;
+  for (uintptr_t g = a0; g <= a1 && g < a0 + 4; g++) {
+    MemShadow &sh = g_shadow[g];
+    if (sh.first == 255) sh.first = (uint8_t)me->id;
+    else if (sh.first != me->id) sh.flags |= 2;
+    if (write) sh.flags |= 1;
+    if ((sh.flags & 3) == 3) hot = true;
+    if (watched) {
+      // happens-before on the chunk buffers' own memory, independent of where the hooks sit
+      bool race = false;
+      int other = -1;
+      if (sh.wtid != 255 && sh.wtid != me->id && sh.wclk > me->vc[sh.wtid]) { race = true; other = sh.wtid; }
+      if (write && sh.rtid != 255 && sh.rtid != me->id && sh.rclk > me->vc[sh.rtid]) { race = true; other = sh.rtid; }
+      if (race) {
+        long off = (const char *)p - S.buf_base;
+        mon_violation("hb-mem", std::string(write ? "store to" : "load from") + " buffer " + std::to_string(off / (long)g_sizeof_iobuffer) + " (offset " + std::to_string(off % (long)g_sizeof_iobuffer) +
+                                    ") by t" + std::to_string(me->id) + " not ordered after an access by t" + std::to_string(other));
+      }
+    }
+    if (write) { sh.wtid = (uint8_t)me->id; sh.wclk = me->vc[me->id]; }
+    else { sh.rtid = (uint8_t)me->id; sh.rclk = me->vc[me->id]; }
+  }
+  if (hot) {
+    // memory that is written during this operation and touched by more than one thread: a scheduling point right
+    // before the access, so that interleavings BETWEEN the loads and stores of unsynchronised code are explored
+    S.res.mem_sched_points++;
+    record(EV_MEM, write ? 1 : 0, 0);
+    yield_point();
+  }
+  g_in_mem = false;
+}
+
+// memory handed out by operator new / returned to operator delete starts without history: which granules count as
+// "shared and written" must depend on what happened to the OBJECT, not on who owned the address before (heap reuse
+// differs from process to process and would make runs irreproducible)
+void mem_fresh(const void *p, unsigned long n) {
+  if (!tl_sim || !S.active || g_busy || g_in_mem || g_shadow.empty()) return;   // (the shadow map's own nodes come through here too)
+  g_in_mem = true;
+  uintptr_t a0 = (uintptr_t)p >> 3, a1 = ((uintptr_t)p + (n ? n - 1 : 0)) >> 3;
+  if (a1 - a0 > 4096) { a1 = a0 + 4096; }
+  for (uintptr_t g = a0; g <= a1; g++) g_shadow.erase(g);
+  g_in_mem = false;
 }
 
 // ---------------------------------------------------------------- session
 
 void session_begin(const SchedConfig &cfg) {
+  Busy busy_guard;
   if (S.active) { fprintf(stderr, "simsched: nested session\n"); abort(); }
   S.cfg = cfg;
   S.rng.reseed(cfg.seed);
@@ -556,6 +642,7 @@ void session_begin(const SchedConfig &cfg) {
   S.replay_pos = 0;
   S.spurious_left = cfg.max_spurious;
   S.mtx_id.clear(); S.cv_id.clear(); S.mtx_vc.clear(); S.obj_hash.clear(); S.atom_vc.clear();
+  g_shadow.clear();
   next_mtx_id = 0; next_cv_id = 0;
   S.buf_base = S.ctrl_base = nullptr; S.nbuf = 0; S.bm.clear(); S.io_tid = -1;
   S.last_kind = 0;
@@ -574,15 +661,21 @@ void session_begin(const SchedConfig &cfg) {
   S.th.clear();
   S.th.push_back(m);
   S.cur = m;
+  note_stack(m);
+  tl_sim = true;
   S.active = true;
 }
 
 SchedResult session_end() {
+  Busy busy_guard;
   // every other thread must have finished and been joined
   std::string unj;
   for (ThreadRec *t : S.th)
     if (t->id != 0 && t->st != T_FINISHED) unj += "t" + std::to_string(t->id) + " ";
   if (!unj.empty()) fail(FAIL_UNJOINED, "operation returned while threads are unfinished: " + unj + "| " + blocked_table());
+  S.active = false;   // from here on nothing is simulated any more (instrumented destructors may still call in)
+  S.cur = nullptr;
+  tl_sim = false;
   for (ThreadRec *t : S.th) {
     if (t->id != 0 && t->real.joinable()) t->real.join();
     sem_destroy(&t->sem);
@@ -600,9 +693,14 @@ SchedResult session_end() {
 
 static void trampoline(ThreadRec *r) {
   sem_wait_retry(&r->sem);
+  g_busy = true;
+  tl_sim = true;
+  note_stack(r);
   r->started = true;
   record(EV_THREAD_START, r->id, 0);
+  g_busy = false;
   r->fn();
+  g_busy = true;
   // thread exit
   record(EV_THREAD_EXIT, r->id, 0);
   close_interval(r);
@@ -615,7 +713,9 @@ static void trampoline(ThreadRec *r) {
   if (!n) fail(FAIL_DEADLOCK, "no runnable thread after exit of t" + std::to_string(r->id) + ": " + blocked_table());
   S.res.switches++;
   S.cur = n;
+  tl_sim = false;
   sem_post(&n->sem);
+  // (g_busy stays true: the thread that was just released sets it for itself in switch_to)
 }
 
 } // namespace simsched
@@ -627,6 +727,7 @@ using namespace simsched;
 
 // std::atomic operations: scheduling point before, vector-clock transfer after (treated as acquire + release)
 void sim_atomic_event(const void *addr, int kind) {
+  Busy busy_guard;
   if (!S.active) return;
   auto it = S.atom_vc.find(addr);
   int id = it == S.atom_vc.end() ? (int)S.atom_vc.size() : (int)std::distance(S.atom_vc.begin(), it);
@@ -636,6 +737,7 @@ void sim_atomic_event(const void *addr, int kind) {
   yield_point();
 }
 void sim_atomic_after(const void *addr, int kind) {
+  Busy busy_guard;
   if (!S.active) return;
   ThreadRec *me = S.cur;
   std::vector<uint32_t> &vc = S.atom_vc[addr];
@@ -649,10 +751,12 @@ void sim_atomic_after(const void *addr, int kind) {
 
 sim_mutex::sim_mutex() noexcept {}
 sim_mutex::~sim_mutex() {
+  Busy busy_guard;
   if (S.active) S.mtx_id.erase(this);
 }
 
 void sim_mutex::lock() {
+  Busy busy_guard;
   if (!S.active) { owner_ = 0; return; }
   ThreadRec *me = S.cur;
   int id = mutex_id(this);
@@ -675,6 +779,7 @@ void sim_mutex::lock() {
 }
 
 bool sim_mutex::try_lock() {
+  Busy busy_guard;
   if (!S.active) { if (owner_ != -1) return false; owner_ = 0; return true; }
   ThreadRec *me = S.cur;
   int id = mutex_id(this);
@@ -701,6 +806,7 @@ static void release_mutex(sim_mutex *m, ThreadRec *me) {
 }
 
 void sim_mutex::unlock() {
+  Busy busy_guard;
   if (!S.active) { owner_ = -1; return; }
   ThreadRec *me = S.cur;
   release_mutex(this, me);
@@ -711,10 +817,12 @@ void sim_mutex::unlock() {
 
 sim_condition_variable::sim_condition_variable() noexcept {}
 sim_condition_variable::~sim_condition_variable() {
+  Busy busy_guard;
   if (S.active) S.cv_id.erase(this);
 }
 
 void sim_condition_variable::notify_one() noexcept {
+  Busy busy_guard;
   if (!S.active) return;
   ThreadRec *me = S.cur;
   std::vector<ThreadRec *> w;
@@ -739,6 +847,7 @@ void sim_condition_variable::notify_one() noexcept {
 }
 
 void sim_condition_variable::notify_all() noexcept {
+  Busy busy_guard;
   if (!S.active) return;
   ThreadRec *me = S.cur;
   long n = 0;
@@ -750,6 +859,7 @@ void sim_condition_variable::notify_all() noexcept {
 }
 
 static void cv_block(sim_condition_variable *cv, std::unique_lock<sim_mutex> &lk, bool timed) {
+  Busy busy_guard;
   if (!S.active) { fprintf(stderr, "simsched: condition_variable::wait outside a session\n"); abort(); }
   ThreadRec *me = S.cur;
   sim_mutex *m = lk.mutex();
@@ -785,6 +895,7 @@ bool sim_condition_variable::wait_timed_(std::unique_lock<sim_mutex> &lk) {
 }
 
 void sim_thread::start_(std::function<void()> fn) {
+  Busy busy_guard;
   if (!S.active) { fprintf(stderr, "simsched: std::thread created outside a session\n"); abort(); }
   ThreadRec *me = S.cur;
   if ((int)S.th.size() >= MAXT) { fprintf(stderr, "simsched: too many threads\n"); abort(); }
@@ -806,6 +917,7 @@ void sim_thread::start_(std::function<void()> fn) {
 }
 
 void sim_thread::join() {
+  Busy busy_guard;
   if (!rec_) throw std::system_error(std::make_error_code(std::errc::invalid_argument));
   ThreadRec *me = S.cur;
   ThreadRec *r = rec_;
@@ -824,6 +936,7 @@ void sim_thread::join() {
 }
 
 void sim_thread::detach() {
+  Busy busy_guard;
   if (!rec_) throw std::system_error(std::make_error_code(std::errc::invalid_argument));
   rec_->detached = true;
   rec_ = nullptr;
